@@ -76,6 +76,19 @@ class Ctx:
         print("[%s %6.1fs]" % (self.prop, time.time() - self.t0), *a, flush=True)
 
     # ------------------------------------------------------------------ build
+    def build_mvh_386(self):
+        """The harness built for a 32-bit platform (GOARCH=386, runs on this machine): word-size slips in the codec."""
+        self.build_mvh()
+        env = dict(os.environ)
+        env.update(GOENV)
+        env.update({"GOARCH": "386", "CGO_ENABLED": "0"})
+        out = self.path("mvh_386")
+        p = subprocess.run(["go", "build", "-tags", "verif", "-o", out, "./cmd/mvh"], cwd=self.path("harness"), env=env,
+                           capture_output=True, text=True)
+        if p.returncode != 0:
+            raise Inconclusive("386 harness build failed:\n" + p.stdout + p.stderr)
+        return out
+
     def build_mvh(self, race=False):
         """Build the harness against /repo's current working tree, hooks on. The harness sources are copied
         to the scratch directory first (checks may run concurrently) and the enum registry is regenerated
@@ -110,7 +123,7 @@ class Ctx:
         if env_extra:
             env.update(env_extra)
         try:
-            p = subprocess.run([binary or self.mvh] + [str(a) for a in args], cwd=self.scratch, env=env,
+            p = subprocess.run([binary or self.mvh] + [str(a) for a in args], cwd=self.scratch, env=env, stdin=subprocess.DEVNULL,
                                capture_output=True, text=True, timeout=timeout)
         except subprocess.TimeoutExpired:
             raise Inconclusive("mvh %s timed out after %ds" % (args[0], timeout))
